@@ -155,6 +155,9 @@ func (d vDef) query() string {
 		return vTagFilter(d.T, false)
 	case "N":
 		return vTagFilter(d.T, true)
+	case "S":
+		typ, sub, _ := strings.Cut(d.T, "/")
+		return fmt.Sprintf("@sub:%s:%s sport:@sub:sport@", typ, sub)
 	case "X": // deliberately malformed (C11 invalid-call classes)
 		return "id:(("
 	}
